@@ -243,14 +243,14 @@ Definition fk_def_ok (t : table) (f : fkey) : result unit :=
 Definition check_def_ok (k : check) : result unit :=
   if is_wrapped (check_sql (k_expr k)) then Ok tt else Err ESyntax.
 
-(** everything CREATE TABLE checks except that the name is free: the catalogue entry it would add *)
-Definition new_ctable (x : xtable) (uniques : list (list str)) : result ctable :=
+(** what CREATE TABLE checks of the definition (the table's name plays no role here): the effective
+    primary key, or the error *)
+Definition table_checks (x : xtable) (uniques : list (list str)) : result (option index) :=
   let t := x_t x in
   match t_idx t with
   | _ :: _ => Err EUnsupported
   | [] =>
-  if reserved_name (t_name t) then Err EBadTable
-  else if negb (nodup_strs (map c_name (t_cols t))) then Err EDupColumn
+  if negb (nodup_strs (map c_name (t_cols t))) then Err EDupColumn
   else if negb (existsb (fun c => match c_gen c with None => true | Some _ => false end) (t_cols t)) then Err EBadTable
   else match first_err (column_def_ok t) (t_cols t) with
   | Err e => Err e
@@ -280,11 +280,20 @@ Definition new_ctable (x : xtable) (uniques : list (list str)) : result ctable :
   | Err e => Err e
   | Ok _ =>
   if negb (forallb (fun u => forallb (has_col t) u && negb (Nat.eqb (length u) 0)) uniques) then Err ENoSuchColumn
-  else
-    let t' := mkTable (t_name t) (t_without_rowid t) (t_strict t) (t_cols t) pk [] (t_fks t) (t_checks t) in
-    Ok (mkCT (set_x_t x t') uniques [])
+  else Ok pk
   end end end end end
   end.
+
+(** everything CREATE TABLE checks except that the name is free: the catalogue entry it would add *)
+Definition new_ctable (x : xtable) (uniques : list (list str)) : result ctable :=
+  let t := x_t x in
+  if reserved_name (t_name t) then Err EBadTable
+  else match table_checks x uniques with
+       | Err e => Err e
+       | Ok pk =>
+           Ok (mkCT (set_x_t x (mkTable (t_name t) (t_without_rowid t) (t_strict t) (t_cols t) pk [] (t_fks t) (t_checks t)))
+                    uniques [])
+       end.
 
 Definition create_table (d : db) (x : xtable) (uniques : list (list str)) : result db :=
   match new_ctable x uniques with
